@@ -273,7 +273,10 @@ def run(repo, chk, tier):
         if f.is_contextmanager() and f.key.split("#")[0] not in SURFACE and f.key not in EXCLUDED_MANAGERS:
             an = analyses.get(f)
             if an is not None and (an.dirty_cells() or an.touched_cells()):
-                for cell, exit_kind, path in an.dirty_exits[:2]:
+                # a manager that saves and restores some cells is judged on those cells (set_params also passes through
+                # the bounds table without changing it - the same tolerance the surface entry of temp_params has)
+                own_cells = {r[0] for r in an.restores} or set(an.touched_cells())
+                for cell, exit_kind, path in [d_ for d_ in an.dirty_exits if not own_cells or d_[0] in own_cells][:2]:
                     chk.violation(
                         "R1", f.key, "%s@%s" % (cell, exit_kind),
                         "context manager not on the frozen surface leaves cell '%s' modified at the %s exit" % (cell, exit_kind),
